@@ -87,6 +87,10 @@ func (r *Reader) UVarInt() (uint64, error) {
 	return n, nil
 }
 
+// maxStringSize is the maximum length of a single string value, matching
+// DEFAULT_MAX_STRING_SIZE (1 GiB) of ClickHouse.
+const maxStringSize = 1 << 30
+
 func (r *Reader) StrLen() (int, error) {
 	n, err := r.Int()
 	if err != nil {
@@ -95,6 +99,10 @@ func (r *Reader) StrLen() (int, error) {
 
 	if n < 0 {
 		return 0, errors.Errorf("size %d is invalid", n)
+	}
+	if n > maxStringSize {
+		// Do not allocate by corrupted or hostile length.
+		return 0, errors.Errorf("size %d is too big, maximum is %d", n, maxStringSize)
 	}
 
 	return n, nil
